@@ -5,7 +5,7 @@
 EXTENDS Client, Json
 CONSTANTS DiagLine, CInvSel
 VARIABLES l, obs   \* obs: datagrams seen since the iteration began
-tvars == <<cvars, l, obs>>
+tvars == <<cvars, svars, l, obs>>
 Trace == ndJsonDeserialize("trace.ndjson")
 Ev == Trace[l]
 
@@ -54,8 +54,9 @@ TNext ==
   /\ (IF l = DiagLine THEN PrintT(<<"DIAG", l, Ev, "hist", hist, "latest", latest, "efile", efile, "obs", obs,
                                     "expected", LoopFold(efile, hist, <<>>)>>) ELSE TRUE)
   /\ (TReset \/ TSetup \/ TEdit \/ TStart \/ TLoopRead \/ TSend \/ TLoopDone \/ TClose)
+  /\ UNCHANGED svars
   /\ \A n \in CInvSel : IF l = DiagLine THEN (IF CInvByName(n) THEN TRUE ELSE PrintT(<<"DIAG invariant fails", n>>))
                         ELSE CInvByName(n)
-TSpec == CInit /\ l = 1 /\ obs = <<>> /\ [][TNext]_tvars
+TSpec == CInit /\ SInit /\ l = 1 /\ obs = <<>> /\ [][TNext]_tvars
 Accepted == TLCGet("stats").diameter - 1 = Len(Trace)
 =============================================================================
